@@ -3,6 +3,7 @@ CHECK_DEADLOCK FALSE
 INVARIANT InOrder
 INVARIANT NothingLost
 INVARIANT OnlyValues
+INVARIANT StartedIsUncomputed
 INVARIANT Export
 PROPERTY TakeNoMore
 PROPERTY StopForEver
